@@ -9,7 +9,7 @@ from common import Cmat, Cx, R, Rmat, cfl, fl, flmat, max_rel_err
 
 from common import wiring_pre_build as pre_build  # noqa: E402,F401
 
-LEAN_MODULES = ["PyomaVerif.Props.C01", "PyomaVerif.Props.WiringRun", "PyomaVerif.Props.C01C11", "PyomaVerif.Props.C01E2E", "PyomaVerif.Props.C01Stored", "PyomaVerif.Props.WiringCalls", "PyomaVerif.Props.C01Table", "PyomaVerif.Props.C03Table", "PyomaVerif.Props.C01TableLegacy"]
+LEAN_MODULES = ["PyomaVerif.Props.C01", "PyomaVerif.Props.WiringRun", "PyomaVerif.Props.C01C11", "PyomaVerif.Props.C01E2E", "PyomaVerif.Props.C01Stored", "PyomaVerif.Props.WiringCalls", "PyomaVerif.Props.C01Table", "PyomaVerif.Props.C03Table", "PyomaVerif.Props.C01TableLegacy", "PyomaVerif.Props.C01Excite"]
 THEOREMS = [
     # the exact sequence of core-routine calls of the run()/mpe() body and the exact set of parameters bound at each (regenerated call table)
     "PV.WiringCalls.C12_ssidat_run_calls",
@@ -47,6 +47,12 @@ THEOREMS = [
     "PV.C01E2E.recovered_of_similar",
     "PV.C01E2E.C01_e2e_cov",
     "PV.C01E2E.C01_e2e_dat",
+    # the rank condition on the controllability factor derived from the property's own premises (A invertible, spanning state
+    # sequence <= distinct eigenvalues and no vanishing modal coordinate of x0, reference subset observable)
+    "PV.C01Excite.C01_gamma_of_premises",
+    "PV.C01Excite.C01_excited_of_modal",
+    "PV.C01Excite.C01_e2e_cov_excited",
+    "PV.C01Excite.C01_e2e_dat_excited",
     "PV.C01E2E.Mode.conj",
     "PV.C01E2E.C01_pole_pair",
     "PV.C01E2E.Ex.recovered",
